@@ -25,6 +25,7 @@ type Knobs struct {
 	Ext              bool // outside writer
 	Conn             bool // connection monitoring + notifications
 	Health           bool
+	HealthyChecks    bool // checkers that always report healthy (instantly or only at their 100ms deadline)
 	Probes           bool
 	Promote          bool // blocking promote callbacks
 	DemoteDur        bool
@@ -86,6 +87,10 @@ func GenTiming(t *rapid.T, k Knobs) (time.Duration, time.Duration) {
 }
 
 func genLatList(t *rapid.T, max time.Duration, label string) []time.Duration {
+	if max > 1 && rapid.IntRange(0, 7).Draw(t, label+"_edge") == 0 {
+		// every operation at the largest admissible latency
+		return []time.Duration{max - 1, max - 1}
+	}
 	n := rapid.IntRange(2, 7).Draw(t, label+"_n")
 	out := make([]time.Duration, n)
 	for i := range out {
@@ -146,6 +151,12 @@ func GenPlan(t *rapid.T, profile string, k Knobs) *Plan {
 			in.HasHealth = true
 			in.MCF = rapid.SampledFrom([]int{0, 1, 2, 3, 5}).Draw(t, "mcf")
 			in.Health = GenHealthScript(t, in.MCF)
+		}
+		if k.HealthyChecks && !in.HasHealth && rapid.IntRange(0, 1).Draw(t, "healthy_checker") == 0 {
+			// a checker that always answers healthy, sometimes only when its 100ms context expires
+			in.HasHealth = true
+			in.MCF = rapid.SampledFrom([]int{0, 1, 3}).Draw(t, "mcf_h")
+			in.Health = rapid.SliceOfN(rapid.SampledFrom([]int{0, 2, 2}), 0, 60).Draw(t, "healthy_script")
 		}
 		if k.WatchDrops {
 			switch rapid.IntRange(0, 3).Draw(t, "drops") {
